@@ -4,11 +4,17 @@ correspondence: every geometric helper of gstools/tools/geometric.py, set_len_an
 isometrize / anisometrize / main_axes / _get_iso_rad against the Lean model GSV.Model.Geo run on Float
 (padding rules bit-exact, matrices within 1e-12 relative to the largest entry); whole ang2dir calls (several directions,
 dim=, every input form) against ang2dirCall; live model objects walked through setter histories with reads before and after every
-change against the setter state machine mRun.
+change against the setter state machine mRun; per geometry stratum (neither / anisotropy only with all angles exactly 0 / rotation only
+with all ratios exactly 1 / both) x dim 1-4: captured kriging matrix / right-hand sides / generator arrays, the functional drift rows of
+universal kriging (every chunk, estimate / variance / only_mean paths) against Pipe.driftPos = anisometrize(isometrize(targets)), and the
+Fourier mode lattice of (period, anis) against GSV.Model.Fourier.modesGrid and against the isotropic twin with period P / [1, anis].
 search: the real API against independent oracles (explicit 2-D/3-D/4-D rotation formulas, orthogonality and
 inverse residuals, main-axis length scales, SRF / Krige / CondSRF / vector-field pipelines under the change of
 coordinates with an isotropic model at the transformed positions; ang2dir against ISO 80000-2 formulas; geometry and
-pipelines of model objects changed in place against independent bookkeeping and fresh models)."""
+pipelines of model objects changed in place against independent bookkeeping and fresh models; every pipeline incl. universal kriging
+with linear / quadratic / callable drift, Detrended, only_mean / get_mean, chunked and structured evaluation, CondSRF over universal kriging
+and the Fourier generator (period handling, periodicity along rotated main axes, explicit mode sum, axis covariance) x the four geometry
+strata x dim 1-4 x six ways of writing the geometry: _search_strata)."""
 import warnings
 
 import numpy as np
@@ -21,10 +27,13 @@ ASSUMPTIONS = [
     "_get_iso_rad by differential execution on Float (1e-12; padding rules and ratios bit-exact)",
     "numpy matmul/dot/cos/sin agree with the Lean Float operations within 1e-12 on O(1) entries (BLAS summation "
     "order, libm)",
-    "that Krige and SRF use positions only through model.isometrize (pre_pos, _krige_pos) is modelled by GSV.Model.Pipe "
+    "that Krige and SRF use positions only through model.isometrize (pre_pos, _krige_pos) - and the functional drift terms of the right-hand sides through anisometrize(isometrize(targets)) - is modelled by GSV.Model.Pipe "
     "(composition of the Geo, Krige and Gen models) and tied by capturing the assembled kriging matrix, the right-hand "
     "sides and the generator arrays of real objects (1e-11 / 1e-10); CondSRF and vector fields by the search only",
     "lat-lon and temporal models are out of scope here (C13)",
+    "Fourier generator: the mode lattice model GSV.Model.Fourier (deltaK, modesGrid, specFactor; owned by C17) is tied here as well (lattice of real "
+    "generators for (period, anis) and for the isotropic twin with period P / [1, anis], 1e-12); the axis-covariance check of the search truncates the "
+    "lattice sums (Gaussian model, |k| len_scale >= 8.4, transversal periods >= 7 len_scale anis) and compares at 1e-7 var",
     "that a live CovModel object carries no geometric state besides (dim, len_scale, anis, angles) - the setter state machine "
     "GSV.Model.Geo.mStep - is tied by read / change / read histories (state bit-exact, geometry 1e-12 after every setter), not proved",
     "ang2dir: the whole call (several rows, dim=, transposition, rejected input) is GSV.Model.Geo.ang2dirCall, tied by differential "
@@ -172,8 +181,84 @@ def _pipe_cases(rng, gs, dim, angles, anis, add):
             op = {"op": "pipe_srf", "gen": gen, "dim": dim, "N": N, "X": x, "angles": fa, "anis": fs,
                   "sf": proto.fbits(g._spectrum_factor), "k": proto.fbits(g._modes), "z1": proto.fbits(g._z_1),
                   "z2": proto.fbits(g._z_2), "pos": proto.fbits(pos)}
+            # the mode lattice Fourier.update builds from (period, model.anis): GSV.Model.Fourier.modesGrid / deltaK, and the lattice of the
+            # ISOTROPIC twin with the period P / [1, anis] (theorem fourier_grid_iso_period: the same lattice) - against the real generator of
+            # the anisotropic model AND against a real generator of the isotropic model that is given the divided period
+            mno = [int(v) for v in g._mode_no]
+            svec = np.concatenate(([1.0], np.asarray(m0.anis, dtype=float)))
+            iso0 = Model(dim=dim, var=var, len_scale=ls)
+            p_iso = [float(v) for v in np.asarray(period) / svec]
+            g_iso = gs.SRF(iso0, generator="Fourier", seed=seed, period=p_iso, mode_no=mno).generator
+            fcase = dict(case, gen=gen, period=period, mode_no=mno)
+            add({"op": "fourier_grid", "dim": dim, "period": proto.fbits(period), "anis": proto.fbits(m0.anis), "mode_no": mno},
+                "Fourier lattice: modes / delta_k of (period P, anis)", (np.asarray(g._modes), np.asarray(g._delta_k)), "fgrid", fcase)
+            add({"op": "fourier_grid", "dim": dim, "period": proto.fbits(p_iso), "anis": proto.fbits([1.0] * (dim - 1)), "mode_no": mno},
+                "Fourier lattice: isotropic twin with period P / [1, anis] = lattice of the anisotropic generator",
+                (np.asarray(g._modes), np.asarray(g._delta_k), np.asarray(g_iso._modes), np.asarray(g_iso._spectrum_factor),
+                 np.asarray(g._spectrum_factor)), "fgrid_iso", fcase)
     add(op, "SRF(" + gen + ") = generator(isometrize(pos)) = transformed modes at pos", np.asarray(field, dtype=float), "pipe_srf",
         dict(case, gen=gen, seed=seed, pos=pos.tolist()))
+
+
+def _drift_fns(kind, dim):
+    """(constructor argument, list of functions) of the RAW coordinates: the library's own linear / quadratic families, or two callables"""
+    from gstools.krige.tools import get_drift_functions
+    if kind == "callable":
+        fns = [lambda *p: np.sin(0.7 * np.asarray(p[0]) + 0.3 * np.asarray(p[-1])),
+               lambda *p: np.asarray(p[0]) * np.asarray(p[-1]) + 0.5 * np.asarray(p[0])]
+        return fns, fns
+    return kind, get_drift_functions(dim, kind)
+
+
+def _drift_case(rng, gs, dim, angles, anis, stratum, add):
+    """Universal kriging (functional drift) with a model in a given geometry stratum: the drift rows of every right-hand side the real
+    object hands to the kernel (all chunks; estimate, estimate + variance and only_mean paths) against the drift functions evaluated at
+    GSV.Model.Pipe.driftPos = anisometrize(isometrize(targets)) of the MODEL; the drift border of the captured kriging matrix against the
+    drift functions at the raw conditioning positions."""
+    import gstools.krige.base as KB
+    var = float(np.round(rng.uniform(0.5, 3), 3))
+    ls = float(np.round(np.exp(rng.uniform(-0.5, 1.0)), 3))
+    Model = [gs.Exponential, gs.Gaussian, gs.Spherical][rng.randint(3)] if dim <= 3 else gs.Exponential
+    kind = ["linear", "quadratic", "callable"][int(rng.randint(3))]
+    arg, fns = _drift_fns(kind, dim)
+    nf = len(fns)
+    with warnings.catch_warnings():
+        warnings.simplefilter("ignore")
+        model = Model(dim=dim, var=var, len_scale=ls, anis=anis if anis else 1.0, angles=angles if angles else 0.0)
+    n, m = nf + 2 + int(rng.randint(1, 5)), int(rng.randint(1, 8))
+    cpos = rng.randn(dim, n) * 2
+    tpos = rng.randn(dim, m) * 2
+    chunk = [None, 1, 2, 3][int(rng.randint(4))]
+    path = ["field+var", "field", "only_mean"][int(rng.randint(3))]
+    chunks, cap = [], {}
+    o1, o2 = KB.calc_field_krige_and_variance_c, KB.calc_field_krige_c
+
+    def spy_v(mat_, vecs, cond, num_threads=None):
+        chunks.append(np.array(vecs, copy=True))
+        return o1(mat_, vecs, cond, num_threads)
+
+    def spy_f(mat_, vecs, cond, num_threads=None):
+        chunks.append(np.array(vecs, copy=True))
+        return o2(mat_, vecs, cond, num_threads)
+
+    def pinv_k(mat_):
+        cap["mat"] = np.array(mat_, copy=True)
+        return np.linalg.pinv(mat_)
+    KB.calc_field_krige_and_variance_c, KB.calc_field_krige_c = spy_v, spy_f
+    try:
+        with warnings.catch_warnings():
+            warnings.simplefilter("ignore")
+            kk = gs.krige.Universal(model, [c for c in cpos], rng.randn(n), arg, pseudo_inv_type=pinv_k)
+            kk([c for c in tpos], mesh_type="unstructured", chunk_size=chunk, return_var=(path == "field+var"), only_mean=(path == "only_mean"))
+    finally:
+        KB.calc_field_krige_and_variance_c, KB.calc_field_krige_c = o1, o2
+    vecs = np.hstack(chunks) if chunks else np.zeros((n + 1 + nf, 0))
+    case = {"dim": dim, "stratum": stratum, "angles": list(map(float, model.angles)), "anis": list(map(float, model.anis)), "model": model.name,
+            "len_scale": ls, "drift": kind, "chunk_size": chunk, "path": path, "cpos": cpos.tolist(), "tpos": tpos.tolist()}
+    add({"op": "pipe_drift", "dim": dim, "m": m, "angles": proto.fbits(model.angles), "anis": proto.fbits(model.anis), "tpos": proto.fbits(tpos)},
+        "Universal kriging: drift rows of the right-hand sides = f(anisometrize(isometrize(targets))), drift border of the matrix = f(cond_pos)",
+        (fns, n, vecs, cap.get("mat"), cpos, path), "pipe_drift", case)
+    return kind, path, chunk
 
 
 # ------------------------------------------------------------------ ang2dir: whole calls (several directions at once)
@@ -694,6 +779,17 @@ def correspondence(ctx):
             dk = f"ang2dir call: {form}, rows={len(rows)}, cols={ncols}, dim={'None' if adim is None else ('match' if adim == ncols + 1 else adim)}"
             dist[dk] = dist.get(dk, 0) + 1
 
+    # pipelines per geometry stratum (neither / anisotropy only, all angles exactly 0 / rotation only, all ratios exactly 1 / both) x dim 1-4:
+    # captured kriging matrix / right-hand sides, generator arrays, Fourier lattice, and the functional drift terms of universal kriging
+    for rep in range(ctx.scale(2, 20)):
+        for dim in (1, 2, 3, 4):
+            for stratum in (STRATA if dim > 1 else STRATA[:1]):
+                s_ang, s_anis, _ = gen_stratum(rng, dim, stratum)
+                _pipe_cases(rng, gs, dim, s_ang, s_anis, add)
+                dk_, dp_, dc_ = _drift_case(rng, gs, dim, s_ang, s_anis, stratum, add)
+                for k_ in (f"drift terms: stratum {stratum}", f"drift terms: {dk_}", f"drift terms: path {dp_}", f"drift terms: chunk_size {dc_}"):
+                    dist[k_] = dist.get(k_, 0) + 1
+
     # in-place histories (read / change / read) of live model objects
     for t in range(ctx.scale(250, 2500)):
         for k, _v in _hist_case(rng, gs, add):
@@ -744,6 +840,27 @@ def correspondence(ctx):
             elif kind == "pipe_srf":
                 got = [vec(r[0]), vec(r[1])]
                 ok = close_mat(got[0], exp, 1e-10) and close_mat(got[1], exp, 1e-10)
+            elif kind == "fgrid":
+                modes, dk = exp
+                got = [np.asarray(proto.unbits(r["delta_k"]), dtype=float), mat(r["modes"]) if r["modes"] and r["modes"][0] else np.zeros((len(r["modes"]), 0))]
+                ok = close_mat(got[0], dk) and got[1].shape == modes.shape and close_mat(got[1], modes)
+            elif kind == "fgrid_iso":
+                modes, dk, modes_iso, sf_iso, sf = exp
+                got = [np.asarray(proto.unbits(r["delta_k"]), dtype=float), mat(r["modes"]) if r["modes"] and r["modes"][0] else np.zeros((len(r["modes"]), 0))]
+                ok = (close_mat(got[0], dk) and got[1].shape == modes.shape and close_mat(got[1], modes)
+                      and modes_iso.shape == modes.shape and close_mat(modes_iso, got[1]) and close_mat(sf_iso, sf, 1e-10))
+            elif kind == "pipe_drift":
+                fns, n, vecs, kmat, cpos, path = exp
+                dp, ip = mat(r[0]), mat(r[1])
+                want = np.array([np.broadcast_to(np.asarray(f(*dp), dtype=float), (dp.shape[1],)) for f in fns]).reshape(len(fns), -1)
+                border = np.array([np.asarray(f(*cpos), dtype=float) for f in fns]).reshape(len(fns), -1)
+                got = [want, border]
+                rows = vecs[n + 1:n + 1 + len(fns), :]
+                ok = (rows.shape == want.shape and close_mat(want, rows, 1e-11) and bool(np.all(vecs[n, :] == 1.0))
+                      and kmat is not None and close_mat(kmat[n + 1:n + 1 + len(fns), :n], border, 1e-11)
+                      and close_mat(kmat[:n, n + 1:n + 1 + len(fns)], border.T, 1e-11)
+                      and (path != "only_mean" or bool(np.all(vecs[:n, :] == 0.0))))
+                exp = [rows, None if kmat is None else kmat[n + 1:n + 1 + len(fns), :n]]
             elif kind == "ang2dir":
                 if exp[0] != "ok":
                     got = r
@@ -784,7 +901,12 @@ def correspondence(ctx):
                     "(anis, angles, len_scale scalar / list, dim 1-4, single-entry re-assignments, rejected values), state and a random "
                     "subset of the geometry read after every step; Field objects (SRF, vector-field SRF, Simple / Ordinary kriging) on a live model: "
                     "2-8 operations out of in-place setters / model replacement / call with or WITHOUT positions / set_condition with or without "
-                    "positions, every returned field, right-hand side and kriging matrix against GSV.Model.Pipe.fRun",
+                    "positions, every returned field, right-hand side and kriging matrix against GSV.Model.Pipe.fRun; per geometry stratum (neither / "
+                    "anis-only with angles exactly 0 / rot-only with ratios exactly 1 / both; all or a single non-trivial entry) x dim 1-4: Krige / SRF / "
+                    "Fourier captures as above plus Universal kriging (linear / quadratic / callable drift, chunk sizes None/1/2/3, field / field+var / "
+                    "only_mean): drift rows of all right-hand sides vs drift functions at GSV.Model.Pipe.driftPos, drift border of the matrix vs drift "
+                    "functions at the raw conditioning points; Fourier lattice (modes, delta_k) vs GSV.Model.Fourier.modesGrid for (P, anis) and for the "
+                    "isotropic twin (P/[1,anis], 1) and vs a real isotropic generator with the divided period",
             "samples": samples, "disagreements": dis[:20], "distribution": dist}
 
 
@@ -795,6 +917,8 @@ def _tolist(x):
         return [_tolist(v) for v in x]
     if isinstance(x, (np.floating, np.integer)):
         return x.item()
+    if callable(x):
+        return repr(x)
     return x
 
 
@@ -1147,6 +1271,405 @@ def _search_stored(ctx, rng, gs, viol, n_trials):
     return ev, kinds, opcount, hows
 
 
+# ------------------------------------------------------------------ geometry strata x every pipeline
+STRATA = ["neither", "anis-only", "rot-only", "both"]
+STRATA_PIPES = ["srf", "srf_struct", "srf_fourier", "vector", "krige_simple", "krige_ordinary", "krige_universal_linear",
+                "krige_universal_quadratic", "krige_universal_callable", "krige_extdrift", "krige_detrended", "krige_mean",
+                "condsrf_ordinary", "condsrf_universal"]
+CTOR_FORMS = ["kw", "omit", "lenlist", "inplace", "scalar"]     # + "live" (kriging / CondSRF: the model is moved into the stratum after the object exists)
+
+
+def gen_stratum(rng, dim, stratum):
+    """(angles, anis, detail) of full length lying EXACTLY in one geometry stratum:
+    neither = every angle == 0.0 and every ratio == 1.0;  anis-only = every angle == 0.0, at least one ratio != 1;
+    rot-only = every ratio == 1.0, at least one angle != 0;  both.  The non-trivial entries are either all entries or a single
+    one at a random index (a single non-zero angle that is not the first one, a single non-unit ratio that is not the first one),
+    ratios in [0.25, 4] away from 1, angles in (-pi, pi] away from 0 (now and then a quarter / half turn)."""
+    na, ns = dim * (dim - 1) // 2, dim - 1
+    angles, anis, detail = [0.0] * na, [1.0] * ns, []
+    if stratum in ("anis-only", "both") and ns:
+        idx = list(range(ns)) if (ns == 1 or rng.rand() < 0.5) else [int(rng.randint(ns))]
+        for i in idx:
+            a = float(np.exp(rng.uniform(np.log(1.25), np.log(4.0))))
+            a = float(np.round(a, 3)) if rng.rand() < 0.5 else a
+            anis[i] = a if rng.rand() < 0.5 else 1.0 / a
+        detail.append("anis:all" if len(idx) == ns else f"anis:single[{idx[0]}]")
+    if stratum in ("rot-only", "both") and na:
+        idx = list(range(na)) if (na == 1 or rng.rand() < 0.5) else [int(rng.randint(na))]
+        for i in idx:
+            v = float(rng.uniform(0.2, np.pi - 0.2)) * (1 if rng.rand() < 0.5 else -1)
+            if rng.rand() < 0.15:
+                v = float([np.pi / 2, -np.pi / 2, np.pi, np.pi / 4][int(rng.randint(4))])
+            angles[i] = v
+        detail.append("angles:all" if len(idx) == na else f"angles:single[{idx[0]}]")
+    return angles, anis, ",".join(detail) or "trivial"
+
+
+def build_stratum_model(rng, Mcls, dim, kw, angles, anis, form):
+    """the same (angles, anis) written the ways a caller can write them; returns (model, ratios the documentation promises).
+    kw: anis= / angles= lists;  omit: trivial arguments are left out (defaults);  lenlist: per-axis len_scale list instead of anis;
+    inplace: isotropic unrotated model, then model.anis = ... / model.angles = ... ;  scalar: a single ratio / angle as a plain float."""
+    L = kw["len_scale"]
+    rest = {k_: v_ for k_, v_ in kw.items() if k_ != "len_scale"}
+    want = list(anis)
+    triv_s, triv_a = all(a == 1.0 for a in anis), all(a == 0.0 for a in angles)
+    if form == "lenlist" and dim >= 2:
+        ll = [L] + [L * a for a in anis]
+        want = [float(np.float64(v) / np.float64(ll[0])) for v in ll[1:]]
+        m = Mcls(len_scale=ll, **rest) if triv_a else Mcls(len_scale=ll, angles=angles, **rest)
+    elif form == "omit":
+        args = {}
+        if not triv_s:
+            args["anis"] = anis
+        if not triv_a:
+            args["angles"] = angles
+        m = Mcls(len_scale=L, **args, **rest)
+    elif form == "inplace":
+        m = Mcls(len_scale=L, **rest)
+        if dim >= 2:
+            if rng.rand() < 0.5:
+                m.anis = anis
+                m.angles = angles
+            else:
+                m.angles = angles
+                m.anis = anis
+    elif form == "scalar" and dim == 2:
+        m = Mcls(len_scale=L, anis=anis[0], angles=angles[0], **rest)
+    else:
+        m = Mcls(len_scale=L, anis=anis if anis else 1.0, angles=angles if angles else 0.0, **rest)
+    return m, want
+
+
+def _periodized_cov(cov, t, period, terms=4):
+    """sum_m cov(|t + m*period|): covariance of a field that is `period`-periodic along the line (transversal images negligible)"""
+    return float(sum(cov(abs(t + m * period)) for m in range(-terms, terms + 1)))
+
+
+def _search_strata(ctx, rng, gs, viol, reps, deep=False):
+    """EVERY pipeline (SRF, structured SRF, Fourier SRF, vector field, Simple / Ordinary / Universal(linear, quadratic, callable drift) /
+    ExtDrift / Detrended kriging, kriging mean (only_mean=True, get_mean), CondSRF over Ordinary and over Universal kriging) in EVERY geometry
+    stratum (neither / anisotropy only with all angles exactly 0 / rotation only with all ratios exactly 1 / both; all entries non-trivial or a
+    single one) in every dimension the class allows (1-4), the geometry written in five ways (keywords, trivial arguments omitted, per-axis
+    len_scale list, in-place setters, plain floats), kriging with chunk sizes None / 1 / 2 / 3 / 5, unstructured and structured targets.
+    Oracle: the same pipeline class with the isotropic unrotated model at S^-1 R^T x (matrix written independently; conditioning points alike;
+    callable drifts / trends composed with the inverse map; Fourier period divided by [1, anis]).  Universal kriging additionally against the
+    data: values that are exactly a polynomial of the drift's degree in the RAW coordinates are reproduced at every target.  Fourier fields
+    additionally: exact periodicity along each rotated main axis with the period given for that axis, the explicit mode sum with wave
+    vectors R (2 pi n / P) at the raw positions, and (Gaussian model, wide transversal periods) the covariance along main axis i =
+    periodized covariance of the isotropic model with len_scale * anis[i-1]."""
+    ev = 0
+    cover, skipped = {}, {}
+    krige_models = [gs.Gaussian, gs.Exponential, gs.Matern, gs.Stable, gs.Rational, gs.Spherical, gs.Cubic, gs.HyperSpherical]
+    gen_models = [gs.Gaussian, gs.Exponential]
+    fourier_models = [gs.Gaussian, gs.Gaussian, gs.Exponential, gs.Matern]
+
+    def lin_t(*p):
+        return 0.4 + sum((0.3 + 0.2 * i) * np.asarray(p[i]) for i in range(len(p)))
+
+    def g1(*p):
+        return np.sin(0.7 * np.asarray(p[0]) + 0.3 * np.asarray(p[-1]))
+
+    def g2(*p):
+        return np.asarray(p[0]) * np.asarray(p[-1]) + 0.5 * np.asarray(p[0]) - 0.25 * np.asarray(p[len(p) // 2])
+
+    def composed(f, Minv):
+        """f in the raw coordinates, as a function of the isotropic coordinates"""
+        def h(*q):
+            q = np.asarray(q, dtype=float)
+            return f(*(Minv @ q.reshape(len(q), -1)).reshape(q.shape))
+        return h
+
+    for rep in range(reps):
+        for kind in STRATA_PIPES:
+            gen_based = kind in ("srf", "srf_struct", "srf_fourier", "vector") or kind.startswith("condsrf")
+            if kind == "vector":
+                dims = [2, 3]
+            elif kind == "srf_fourier":
+                dims = [1, 2, 3]
+            elif gen_based:
+                dims = [1, 2, 3] + ([4] if (rep + STRATA_PIPES.index(kind)) % 3 == 0 else [])
+            else:
+                dims = [1, 2, 3, 4]
+            for dim in dims:
+                for stratum in (STRATA if dim > 1 else STRATA[:1]):
+                    angles, anis, detail = gen_stratum(rng, dim, stratum)
+                    form = CTOR_FORMS[int(rng.randint(len(CTOR_FORMS)))]
+                    if dim >= 2 and (kind.startswith("krige") or kind.startswith("condsrf")) and rng.rand() < 0.25:
+                        form = "live"       # the Krige object is built on a generically rotated anisotropic model; then the model is moved INTO the stratum in place
+                    if kind == "srf_fourier":
+                        Mcls = fourier_models[int(rng.randint(len(fourier_models)))]
+                    elif gen_based:
+                        Mcls = gen_models[int(rng.randint(2))]
+                    else:
+                        Mcls = krige_models[int(rng.randint(len(krige_models)))]
+                        if Mcls in (gs.Cubic, gs.Spherical) and dim > 3:
+                            Mcls = gs.Exponential
+                    L = float(np.round(np.exp(rng.uniform(-0.3, 0.8)), 3))
+                    kw = dict(dim=dim, var=float(np.round(np.exp(rng.uniform(-1, 1)), 3)), len_scale=L)
+                    seed = int(rng.randint(1, 2**31 - 1))
+                    case = {"pipeline": kind, "stratum": stratum, "detail": detail, "ctor": form, "model": Mcls.__name__, "dim": dim,
+                            "angles": angles, "anis": anis, "len_scale": L, "var": kw["var"], "seed": seed}
+                    key = f"pipeline-strata:{kind}:{stratum}"
+                    try:
+                        with warnings.catch_warnings():
+                            warnings.simplefilter("ignore")
+                            if form == "live":
+                                g_ang, g_anis, _ = gen_stratum(rng, dim, "both")
+                                model, ratios = Mcls(anis=g_anis, angles=g_ang, **kw), list(anis)
+
+                                def settle(k_):
+                                    """move the model the kriging object holds into the stratum, refresh the kriging setup the documented way"""
+                                    if rng.rand() < 0.5:
+                                        k_.model.anis = anis
+                                        k_.model.angles = angles
+                                    else:
+                                        k_.model.angles = angles
+                                        k_.model.anis = anis
+                                    k_.set_condition()
+                                    return k_
+                            else:
+                                model, ratios = build_stratum_model(rng, Mcls, dim, kw, angles, anis, form)
+
+                                def settle(k_):
+                                    return k_
+                            iso = Mcls(**kw)
+                            M = ref_iso_matrix(dim, angles, ratios)
+                            Minv = ref_rotate(dim, ref_pad_angles(dim, angles)) @ np.diag(np.concatenate(([1.0], ratios)))
+                            svec = np.concatenate(([1.0], ratios))
+                            bad = []        # (sub-key, what, numbers)
+
+                            def cmp(sub, what, a, b, tol):
+                                a, b = np.asarray(a, dtype=float), np.asarray(b, dtype=float)
+                                if not (a.shape == b.shape and np.allclose(a, b, rtol=tol, atol=tol)):
+                                    bad.append((sub, what, float(np.max(np.abs(a - b))) if a.shape == b.shape else None))
+                            n = int(rng.randint(4, 10))
+                            pos = rng.randn(dim, n) * 3
+                            if kind == "srf":
+                                a = gs.SRF(model, seed=seed, mode_no=48)(pos)
+                                b = gs.SRF(iso, seed=seed, mode_no=48)(M @ pos)
+                                ev += 2
+                                cmp("", "SRF(model)(x) != SRF(isotropic model)(S^-1 R^T x)", a, b, 1e-9)
+                            elif kind == "srf_struct":
+                                axes = [np.sort(rng.randn(int(rng.randint(2, 4))) * 3) for _ in range(dim)]
+                                a = gs.SRF(model, seed=seed, mode_no=32).structured(axes)
+                                grid = np.array(np.meshgrid(*axes, indexing="ij")).reshape(dim, -1)
+                                b = gs.SRF(iso, seed=seed, mode_no=32)(M @ grid)
+                                ev += 2
+                                cmp("", "structured SRF(model) != SRF(isotropic model) at the transformed grid points", np.ravel(a), b, 1e-9)
+                            elif kind == "vector":
+                                a = gs.SRF(model, generator="VectorField", seed=seed, mode_no=32)(pos)
+                                b = gs.SRF(iso, generator="VectorField", seed=seed, mode_no=32)(M @ pos)
+                                ev += 2
+                                cmp("", "vector field(model)(x) != vector field(isotropic model)(S^-1 R^T x)", a, b, 1e-9)
+                            elif kind == "srf_fourier":
+                                ev += _fourier_case(gs, rng, Mcls, model, iso, kw, M, svec, angles, dim, seed, pos, cmp, case)
+                            elif kind.startswith("condsrf"):
+                                val = rng.randn(n)
+                                tgt = rng.randn(dim, 6) * 3
+                                if kind == "condsrf_ordinary":
+                                    ka, kb = gs.krige.Ordinary(model, pos, val), gs.krige.Ordinary(iso, M @ pos, val)
+                                else:
+                                    ka, kb = gs.krige.Universal(model, pos, val, "linear"), gs.krige.Universal(iso, M @ pos, val, "linear")
+                                ka = settle(ka)
+                                cond = np.linalg.cond(ka._krige_mat)
+                                if not np.isfinite(cond) or cond > 1e6:
+                                    skipped[kind] = skipped.get(kind, 0) + 1
+                                    continue
+                                tol = 1e-12 * cond * 100 + 1e-9
+                                a = gs.CondSRF(ka, seed=seed, mode_no=32)(tgt)
+                                b = gs.CondSRF(kb, seed=seed, mode_no=32)(M @ tgt)
+                                ev += 2
+                                cmp("", "CondSRF(model)(x) != CondSRF(isotropic model, transformed conditioning points)(S^-1 R^T x)", a, b, tol)
+                            else:
+                                ev += _krige_case(gs, rng, kind, model, iso, M, Minv, dim, pos, n, cmp, case, skipped,
+                                                  dict(lin_t=lin_t, g1=g1, g2=g2, composed=composed, settle=settle))
+                    except Exception as e:
+                        ctx.log(f"search: strata {kind} {stratum} {Mcls.__name__} dim={dim} ({form}) raised {type(e).__name__}: {e}")
+                        skipped[kind + ":raised"] = skipped.get(kind + ":raised", 0) + 1
+                        continue
+                    cover[(kind, stratum)] = cover.get((kind, stratum), 0) + 1
+                    for sub, what, dev in bad[:2]:
+                        _viol(viol, key + sub, f"{kind}, stratum '{stratum}' ({detail}), dim {dim}: {what}", case, max_dev=dev)
+    return ev, cover, skipped
+
+
+def _krige_case(gs, rng, kind, model, iso, M, Minv, dim, pos, n, cmp, case, skipped, fn):
+    """one kriging variant with (model at x) and (isotropic model at Mx): estimate, variance, mean paths, chunked / structured targets"""
+    ev = 0
+    nfun = {"krige_universal_linear": dim, "krige_universal_quadratic": dim + dim * (dim + 1) // 2, "krige_universal_callable": 2}.get(kind, 0)
+    if kind == "krige_mean":
+        sub = ["simple", "ordinary", "universal"][int(rng.randint(3))]
+        nfun = dim if sub == "universal" else 0
+        case["mean_of"] = sub
+    if n < nfun + 5:
+        n = nfun + 5 + int(rng.randint(0, 4))
+        pos = rng.randn(dim, n) * (1.5 if kind == "krige_universal_quadratic" else 3)
+    elif kind == "krige_universal_quadratic":
+        pos = pos / 2
+    val = rng.randn(n)
+    ipos = M @ pos
+    structured = dim <= 3 and rng.rand() < 0.3
+    spread = 1.5 if kind == "krige_universal_quadratic" else 3
+    if structured:
+        axes = [np.sort(rng.randn(int(rng.randint(2, 4))) * spread) for _ in range(dim)]
+        tgt = np.array(np.meshgrid(*axes, indexing="ij")).reshape(dim, -1)
+        targ, mesh = axes, "structured"
+    else:
+        tgt = rng.randn(dim, int(rng.randint(3, 9))) * spread
+        if rng.rand() < 0.3:
+            tgt[:, 0] = pos[:, 0]
+        targ, mesh = tgt, "unstructured"
+    m = tgt.shape[1]
+    chunk = [None, 1, 2, 3, 5][int(rng.randint(5))]
+    case.update(chunk_size=chunk, mesh=mesh, cond_pos=pos.tolist(), targets=tgt.tolist())
+    ca, cb = {}, {}
+    if kind == "krige_simple" or (kind == "krige_mean" and case["mean_of"] == "simple"):
+        ka, kb = gs.krige.Simple(model, pos, val, mean=0.3), gs.krige.Simple(iso, ipos, val, mean=0.3)
+    elif kind == "krige_ordinary" or (kind == "krige_mean" and case["mean_of"] == "ordinary"):
+        ka, kb = gs.krige.Ordinary(model, pos, val), gs.krige.Ordinary(iso, ipos, val)
+    elif kind == "krige_universal_linear" or kind == "krige_mean":
+        ka, kb = gs.krige.Universal(model, pos, val, "linear"), gs.krige.Universal(iso, ipos, val, "linear")
+    elif kind == "krige_universal_quadratic":
+        ka, kb = gs.krige.Universal(model, pos, val, "quadratic"), gs.krige.Universal(iso, ipos, val, "quadratic")
+    elif kind == "krige_universal_callable":
+        ka = gs.krige.Universal(model, pos, val, [fn["g1"], fn["g2"]])
+        kb = gs.krige.Universal(iso, ipos, val, [fn["composed"](fn["g1"], Minv), fn["composed"](fn["g2"], Minv)])
+    elif kind == "krige_extdrift":
+        ce, te = rng.randn(n), rng.randn(m)
+        ka, kb = gs.krige.ExtDrift(model, pos, val, ce), gs.krige.ExtDrift(iso, ipos, val, ce)
+        ca = cb = {"ext_drift": te}
+    elif kind == "krige_detrended":
+        ka = gs.krige.Detrended(model, pos, val, fn["g1"])
+        kb = gs.krige.Detrended(iso, ipos, val, fn["composed"](fn["g1"], Minv))
+    else:
+        raise KeyError(kind)
+    ka = fn["settle"](ka)
+    cond = np.linalg.cond(ka._krige_mat)
+    if not np.isfinite(cond) or cond > 1e6:
+        skipped[kind] = skipped.get(kind, 0) + 1
+        return ev
+    tol = 1e-12 * cond * 100 + 1e-10
+    if kind == "krige_mean":
+        fa = ka(targ, mesh_type=mesh, only_mean=True, chunk_size=chunk, **ca)
+        fb = kb(M @ tgt, only_mean=True, **cb)
+        ev += 2
+        cmp(":only_mean", "kriging mean field (only_mean=True) differs from the isotropic model's at S^-1 R^T x", np.ravel(fa), fb, tol)
+        ga, gb = ka.get_mean(), kb.get_mean()
+        ev += 2
+        if (ga is None) != (gb is None):
+            cmp(":get_mean", "get_mean() is None for one of the two objects only", [0.0 if ga is None else 1.0], [0.0 if gb is None else 1.0], 0)
+        elif ga is not None:
+            cmp(":get_mean", "get_mean() differs from the isotropic model's", [ga], [gb], tol)
+        if case["mean_of"] == "universal":
+            # the drift part alone, against the data: exactly linear values have themselves as mean field
+            kl = gs.krige.Universal(model, pos, fn["lin_t"](*pos), "linear")
+            fl = kl(targ, mesh_type=mesh, only_mean=True, chunk_size=chunk)
+            ev += 1
+            cmp(":only_mean:data", "mean field of universal kriging (linear drift) of exactly linear data is not that linear function of the RAW coordinates",
+                np.ravel(fl), fn["lin_t"](*tgt), tol * 10)
+        return ev
+    fa, va = ka(targ, mesh_type=mesh, return_var=True, chunk_size=chunk, **ca)
+    fb, vb = kb(M @ tgt, return_var=True, **cb)
+    ev += 2
+    cmp("", "kriging estimate differs from the isotropic model's (transformed conditioning points) at S^-1 R^T x", np.ravel(fa), fb, tol)
+    cmp(":variance", "kriging variance differs from the isotropic model's (transformed conditioning points) at S^-1 R^T x", np.ravel(va), vb, tol)
+    if chunk is not None:
+        f1 = ka(targ, mesh_type=mesh, return_var=False, **ca)
+        ev += 1
+        cmp(":chunks", f"kriging estimate with chunk_size={chunk} differs from the unchunked one", np.ravel(fa), np.ravel(f1), tol)
+    if kind in ("krige_universal_linear", "krige_universal_quadratic"):
+        # against the data: values that lie exactly in the span of the drift functions (of the RAW coordinates) are reproduced everywhere
+        def poly(*p):
+            r = fn["lin_t"](*p)
+            if kind == "krige_universal_quadratic":
+                r = r + 0.15 * np.asarray(p[0]) * np.asarray(p[-1]) - 0.1 * np.asarray(p[len(p) // 2]) ** 2
+            return r
+        kl = gs.krige.Universal(model, pos, poly(*pos), "linear" if kind == "krige_universal_linear" else "quadratic")
+        fl = kl(targ, mesh_type=mesh, return_var=False, chunk_size=chunk)
+        ev += 1
+        cmp(":data", "universal kriging of data that are exactly a polynomial (degree of the drift) of the RAW coordinates does not reproduce it at the targets",
+            np.ravel(fl), poly(*tgt), tol * 10)
+    if kind == "krige_universal_callable":
+        kl = gs.krige.Universal(model, pos, 1.5 * fn["g1"](*pos) - 0.5 * fn["g2"](*pos) + 2.0, [fn["g1"], fn["g2"]])
+        fl = kl(targ, mesh_type=mesh, return_var=False, chunk_size=chunk)
+        ev += 1
+        cmp(":data", "universal kriging of data in the span of its callable drift functions (of the RAW coordinates) does not reproduce them at the targets",
+            np.ravel(fl), 1.5 * fn["g1"](*tgt) - 0.5 * fn["g2"](*tgt) + 2.0, tol * 10)
+    return ev
+
+
+def _fourier_case(gs, rng, Mcls, model, iso, kw, M, svec, angles, dim, seed, pos, cmp, case):
+    """SRF(model, generator='Fourier', period=P, mode_no=N).  What the code does (Fourier.update / SRF.__call__): the generator works in
+    the isotropic coordinates y = S^-1 R^T x on the mode lattice k_n = 2 pi n * [1, anis] / P (n integer vectors, N_d per axis), so
+    k_n . y = sum_d 2 pi n_d / P_d * (R^T x)_d: P_d is the period along the d-th ROTATED main axis in the raw coordinates, and the same lattice is
+    the one of the isotropic model with the period P / [1, anis] in ITS coordinates.  Checked:
+    (1) field(model, P)(x) == field(isotropic model, P / [1, anis])(S^-1 R^T x)  (same seed, same mode_no);
+    (2) field(x + P_d * axis_d) == field(x) for every main axis d (axis_d = column d of R);
+    (3) field(x) == sum_n sqrt(S(|k_n|) prod(dk)) (z1_n cos(q_n . x) + z2_n sin(q_n . x)) with q_n = R (2 pi n / P) built here (C-order 'ij' grid);
+    (4) Gaussian model, transversal periods >= 7 len_scale * anis: sum_n S(|k_n|) prod(dk) cos(k_n . S^-1 R^T (t axis_i)) ==
+        sum_m C_i(|t + m P_i|), C_i = covariance of the isotropic model with len_scale * anis[i-1]  (1e-7 * var: lattice truncation)."""
+    ev = 0
+    L, var = kw["len_scale"], kw["var"]
+    gauss = Mcls is gs.Gaussian
+    if gauss:
+        c = rng.uniform(7.0, 10.0, size=dim)
+        period = np.round(c * L * svec, 3)
+        mode_no = [2 * int(np.ceil(4.2 * period[d] / (np.pi * svec[d] * L))) for d in range(dim)]
+    else:
+        period = np.round(rng.uniform(6.0, 20.0, size=dim), 3)
+        mode_no = [2 * int(rng.randint(2, 7 if dim < 3 else 5)) for _ in range(dim)]
+    # one period / one count for all axes, written as a scalar (for the covariance check the periods must stay >= 7 len_scale * anis per axis)
+    if rng.rand() < 0.25 and (not gauss or bool(np.all(svec == 1.0))):
+        period = np.full(dim, period[0])
+        mode_no = [max(mode_no)] * dim
+        p_arg, n_arg = float(period[0]), int(mode_no[0])
+    else:
+        p_arg, n_arg = [float(v) for v in period], list(mode_no)
+    case.update(period=p_arg, mode_no=n_arg)
+    R = ref_rotate(dim, ref_pad_angles(dim, angles))
+    sa = gs.SRF(model, generator="Fourier", seed=seed, period=p_arg, mode_no=n_arg)
+    sb = gs.SRF(iso, generator="Fourier", seed=seed, period=[float(v) for v in period / svec], mode_no=list(mode_no))
+    pos = pos * (period / 6.0)[:, None]
+    a = np.asarray(sa(pos), dtype=float)
+    b = np.asarray(sb(M @ pos), dtype=float)
+    ev += 2
+    amp = 1e-9 * (1.0 + float(np.sqrt(var)))
+    cmp("", "Fourier SRF(model, period P)(x) != Fourier SRF(isotropic model, period P / [1, anis])(S^-1 R^T x)", a, b, amp)
+    for d in range(dim):
+        shift = pos + float(rng.randint(1, 3)) * (1 if rng.rand() < 0.5 else -1) * period[d] * R[:, d:d + 1]
+        ev += 1
+        cmp(":periodic", f"Fourier SRF is not periodic along main axis {d} with the period given for that axis", np.asarray(sa(shift), dtype=float), a, amp * 10)
+    # explicit mode sum in the raw coordinates, lattice and amplitudes written here
+    g = sa.generator
+    nn = np.array(np.meshgrid(*[np.arange(-(N // 2), N // 2) for N in mode_no], indexing="ij"), dtype=float).reshape(dim, -1)
+    dk = 2 * np.pi * svec / period
+    kiso = nn * dk[:, None]
+    amp_n = np.sqrt(np.maximum(iso.spectrum(np.linalg.norm(kiso, axis=0)), 0.0) * np.prod(dk))
+    q = R @ (2 * np.pi * nn / period[:, None])
+    z1, z2 = np.asarray(g._z_1), np.asarray(g._z_2)
+    ev += 1
+    if z1.shape == amp_n.shape:
+        ph = q.T @ pos
+        want = (amp_n * z1) @ np.cos(ph) + (amp_n * z2) @ np.sin(ph)
+        cmp(":mode-sum", "Fourier SRF(x) != sum_n sqrt(S(|2 pi n [1,anis] / P|) prod(dk)) (z1 cos(q_n.x) + z2 sin(q_n.x)), q_n = R (2 pi n / P)", a, want,
+            amp * 10)
+    else:
+        cmp(":mode-sum", "number of Fourier modes differs from prod(mode_no)", [z1.size], [amp_n.size], 0)
+    if gauss:
+        sf2 = np.asarray(g._spectrum_factor, dtype=float) ** 2
+        modes = np.asarray(g.modes, dtype=float)
+        for i in range(dim):
+            iso_i = Mcls(dim=dim, var=var, len_scale=L * svec[i])
+            for t in (0.0, float(rng.uniform(0.2, 1.5)) * L * svec[i], float(rng.uniform(0.3, 0.7)) * period[i]):
+                lag = M @ (t * R[:, i])
+                got = float(np.sum(sf2 * np.cos(modes.T @ lag)))
+                want = _periodized_cov(iso_i.covariance, t, period[i])
+                ev += 1
+                cmp(":axis-covariance", f"covariance of the Fourier field along main axis {i} is not the (periodized) covariance of the isotropic model "
+                    f"with len_scale*anis[{i}-1]", [got], [want], 1e-7 * var)
+    return ev
+
+
 def search(ctx, deep=False):
     import gstools as gs
     from gstools.tools import geometric as G
@@ -1484,6 +2007,14 @@ def search(ctx, deep=False):
     ev_st, st_kinds, st_ops, st_hows = _search_stored(ctx, rng, gs, viol, nstore)
     ev += ev_st
 
+    # ---------------- every pipeline x every geometry stratum x dim (own random stream: the sections around keep theirs)
+    st_reps = ctx.scale(2, 12) * (2 if deep else 1)
+    ev_sg, sg_cover, sg_skipped = _search_strata(ctx, np.random.RandomState(ctx.seed + 1202), gs, viol, st_reps, deep)
+    ev += ev_sg
+    sg_by_pipe = {}
+    for (k_, s_), c_ in sorted(sg_cover.items()):
+        sg_by_pipe.setdefault(k_, {})[s_] = c_
+
     # ---------------- pipelines
     npipe = ctx.scale(180, 1500) * (2 if deep else 1)
     models = [gs.Gaussian, gs.Exponential, gs.Matern, gs.Stable, gs.Spherical, gs.Linear, gs.Cubic, gs.Rational,
@@ -1614,4 +2145,9 @@ def search(ctx, deep=False):
                        f"walked through setter histories {hist_ops} with uses before each change {hist_uses}: state vs independent "
                        f"bookkeeping, geometry vs S⁻¹Rᵀ after every step, pipelines after the history vs fresh isotropic model: {hist_pipes}; "
                        f"{nstore} Field objects on a live model evaluated, model changed in place / replaced {st_ops} (kriging refreshed by set_condition()), "
-                       f"evaluated again {st_hows} vs fresh isotropic model at S⁻¹Rᵀ(stored positions) and vs a brand-new object given the positions: {st_kinds}"}
+                       f"evaluated again {st_hows} vs fresh isotropic model at S⁻¹Rᵀ(stored positions) and vs a brand-new object given the positions: {st_kinds}; "
+                       f"geometry strata (neither / anisotropy only, all angles exactly 0 / rotation only, all ratios exactly 1 / both; all or a single non-trivial "
+                       f"entry; 5 ways of writing the geometry) x every pipeline x dim 1-4, kriging chunked / structured / only_mean / get_mean, callable drifts and "
+                       f"trends composed with the inverse map, universal kriging also against polynomial data in the raw coordinates, Fourier SRF (period P vs "
+                       f"isotropic period P/[1,anis], periodicity along rotated main axes, explicit mode sum, axis covariance): cases per pipeline and stratum "
+                       f"{sg_by_pipe}, ill-conditioned / raised and left out {sg_skipped}"}
